@@ -315,7 +315,7 @@ def run(ck: common.Check):
     model_ok = (COQ / ENGINE / "ModelCanon.vo").exists() and ok_gen
 
     # ---- generated + scheduled procedures, observed on the real backend
-    n_prog = ck.n(90, 600)
+    n_prog = ck.n(90, 500)
     recs = run_workers(ck, n_prog, n_sched=2, n_inputs=ck.n(4, 6))
     ck.log("generation + observation of the real backend: %.1fs" % (time.time() - t0))
     st = {}
@@ -324,13 +324,27 @@ def run(ck: common.Check):
     ck.log("generated variants: %s" % st)
     ck.cov["generator"] = {"programs": n_prog, "variants": len(recs), "status": st}
     # an AssertionError (or other internal error) of the backend on a procedure the front end and the scheduler accepted
+    # Internal errors in the code C08 models (the pop assertion of MemoryAnalysis, the asserts of simplify_cir, ...) are C08
+    # findings; internal errors elsewhere in the backend produce no C at all and are listed for the owner property.
+    MODELLED = re.compile(r"mem_analysis\.py|in (simplify_cir|lift_to_cir|comp_cir|get_window_type|comp_fnarg|get_writes_of_stmts|do_s)\b")
+    outside = []
     for r in recs:
         if r.get("status") == "compile-refused" and (r.get("assertion") or r.get("trace")):
-            key = "backend-crash:%s:%s" % (re.sub(r"[^A-Za-z]+", "-", r["error"].split(":")[0]), shape_of(r))
-            ck.violation(key, {"source": r["src"], "schedule": r.get("sched", []), "procedure": r.get("proc_text"), "trace": r.get("trace")},
-                         "the C backend fails with an internal error: " + r["error"][:200])
+            tr = r.get("trace") or ""
+            # frames of the harness' own observers (c08_export.py wrappers) do not count
+            frames = "\n".join(l for l in tr.split("\n") if "c08_export.py" not in l)
+            last = [l for l in frames.split("\n") if l.strip().startswith("File ")][-1:] or [""]
+            if MODELLED.search(last[0]):
+                key = "backend-crash:%s:%s" % (re.sub(r"[^A-Za-z]+", "-", r["error"].split(":")[0]), shape_of(r))
+                ck.violation(key, {"source": r["src"], "schedule": r.get("sched", []), "procedure": r.get("proc_text"), "trace": tr},
+                             "the part of the C backend modelled by C08 fails with an internal error: " + r["error"][:200])
+            else:
+                outside.append({"tag": r["tag"], "error": r["error"][:160], "where": last[0].strip()[:160], "schedule": r.get("sched", [])})
         if r.get("status") == "harness-error":
             ck.broken_obligation("harness-error", r.get("error", "")[-600:])
+    ck.cov["backend_internal_errors_outside_C08"] = outside[:10]
+    if outside:
+        ck.log("backend internal errors outside the code C08 models (no C produced): %d, e.g. %s" % (len(outside), outside[0]))
     okrecs = [r for r in recs if r.get("status") == "ok"]
     if len(okrecs) < max(10, len(recs) // 5):
         ck.broken_obligation("generator-collapsed", "only %d of %d variants compile" % (len(okrecs), len(recs)))
@@ -360,7 +374,7 @@ def run(ck: common.Check):
 
     ck.log("correspondence done: %.1fs" % (time.time() - t0))
     # ---- 3. failing-input search against the real generated C (cheap enough for quick)
-    san_search(ck, okrecs, ck.n(48, 260), suspects)
+    san_search(ck, okrecs, ck.n(48, 220), suspects)
     ck.log("sanitizer search done: %.1fs" % (time.time() - t0))
 
     # ---- 4. evidence
